@@ -38,6 +38,7 @@ type Fact struct {
 	B   bool
 	T   time.Time
 	In  *Inner
+	Any interface{} // always nil or a *Inner: the interface-typed-field branches of model/GoDataAccessLayer.go
 	Arr  []int64
 	FArr []float64
 	SArr []string
@@ -68,6 +69,10 @@ func (f *Fact) clone() *Fact {
 	if f.In != nil {
 		in := *f.In
 		c.In = &in
+	}
+	if a, ok := f.Any.(*Inner); ok && a != nil {
+		in := *a
+		c.Any = &in
 	}
 	c.Arr = append([]int64(nil), f.Arr...)
 	c.FArr = append([]float64(nil), f.FArr...)
@@ -120,6 +125,11 @@ func (f *Fact) gallina() string {
 	add("B", gFV("(VBool "+gBool(f.B)+")"))
 	add("T", gFV(fmt.Sprintf("(VTime {| t_inst := %s; t_loc := 1; t_mono := false |})", gZ(f.T.UnixNano()))))
 	add("In", f.In.gallina())
+	if a, ok := f.Any.(*Inner); ok {
+		add("Any", a.gallina()) // an interface holding a pointer to a struct reads and writes like the pointer
+	} else {
+		add("Any", "(FPtr None)")
+	}
 	var xs []string
 	for _, x := range f.Arr {
 		xs = append(xs, gFV(fmt.Sprintf("(VInt I64 %s)", gZ(x))))
@@ -167,6 +177,10 @@ func (f *Fact) dump() string {
 		in = fmt.Sprintf("%+v", *f.In)
 	}
 	c.In = nil
+	if a, ok := f.Any.(*Inner); ok && a != nil {
+		in += fmt.Sprintf(" Any=%+v", *a)
+	}
+	c.Any = nil
 	var mk []string
 	for k, v := range f.M {
 		mk = append(mk, fmt.Sprintf("%s=%d", k, v))
@@ -207,6 +221,9 @@ func genFact(p *prng) *Fact {
 	if p.chance(1, 12) {
 		f.In = nil
 	}
+	if !(f.U8 == 3 && f.U16 >= 2) { // derived, not drawn (the PRNG stream of older replays is unchanged); nil interface 1 time in 8
+		f.Any = &Inner{X: f.I64 + 1, Y: 0.25, S: "any", B: !f.B}
+	}
 	f.calls = map[string]int64{}
 	return f
 }
@@ -229,6 +246,7 @@ type factJSON struct {
 	B    bool
 	T    time.Time
 	In   *innerJSON
+	Any  *innerJSON `json:",omitempty"`
 	Arr  []int64
 	FArr []uint64
 	SArr []string
@@ -248,6 +266,9 @@ func (f *Fact) MarshalJSON() ([]byte, error) {
 	if f.In != nil {
 		j.In = &innerJSON{X: f.In.X, Y: math.Float64bits(f.In.Y), S: f.In.S, B: f.In.B}
 	}
+	if a, ok := f.Any.(*Inner); ok && a != nil {
+		j.Any = &innerJSON{X: a.X, Y: math.Float64bits(a.Y), S: a.S, B: a.B}
+	}
 	for _, x := range f.FArr {
 		j.FArr = append(j.FArr, math.Float64bits(x))
 	}
@@ -263,6 +284,9 @@ func (f *Fact) UnmarshalJSON(b []byte) error {
 		F32: float32(math.Float64frombits(j.F32)), F64: math.Float64frombits(j.F64), S: j.S, B: j.B, T: j.T, Arr: j.Arr, SArr: j.SArr, M: j.M, MS: j.MS}
 	if j.In != nil {
 		f.In = &Inner{X: j.In.X, Y: math.Float64frombits(j.In.Y), S: j.In.S, B: j.In.B}
+	}
+	if j.Any != nil {
+		f.Any = &Inner{X: j.Any.X, Y: math.Float64frombits(j.Any.Y), S: j.Any.S, B: j.Any.B}
 	}
 	for _, x := range j.FArr {
 		f.FArr = append(f.FArr, math.Float64frombits(x))
